@@ -161,7 +161,7 @@ impl<F: Fam> Ctx<F> {
                 }
                 self.after_op(s, &[C01], true)
             }
-            Op::TightShrink { s } => {
+            Op::TightShrink { s, over } => {
                 let s = (*s & 1) as usize;
                 let st = self.st(s);
                 let l = st.l();
@@ -176,8 +176,22 @@ impl<F: Fam> Ctx<F> {
                         buckets *= 2;
                         b = if buckets == 8 { 7 } else { buckets / 8 * 7 };
                     }
-                    let to_remove = need.saturating_sub(best);
-                    if best > 0 && to_remove > 0 && to_remove < st.hook.main_len && to_remove <= 300 {
+                    // `over`: stop one above the boundary
+                    let mut target = best + *over as usize;
+                    if target > need {
+                        // already at or below: go for the next boundary down
+                        let mut b2 = 3usize;
+                        let mut prev = 0usize;
+                        let mut bk = 4usize;
+                        while b2 < best {
+                            prev = b2;
+                            bk *= 2;
+                            b2 = if bk == 8 { 7 } else { bk / 8 * 7 };
+                        }
+                        target = prev + *over as usize;
+                    }
+                    let to_remove = need.saturating_sub(target);
+                    if best > 0 && target > 0 && to_remove > 0 && to_remove < st.hook.main_len && to_remove <= 300 {
                         let mut removed = 0;
                         let keys: Vec<u32> = self.slots[s].model.keys().copied().collect();
                         for kk in keys {
